@@ -45,11 +45,13 @@ pub struct Profile {
     pub clock_back_pct: u64,
     pub fault_pct: u64,     // share of appends/batches preceded by an injected I/O fault
     pub reclaim_pct: u64,   // per op: observe the reclamation bookkeeping (`trks`), run the reclaimer, list the directory
+    pub crash_w_pct: u64,   // share of appends/batches inside which the process is killed (at an entry write / the submission)
+    pub crash_r_pct: u64,   // share of consuming reads inside which the process is killed (at an index persist)
 }
 
 pub fn profile(name: &str) -> Profile {
     let base = Profile { name: "seq", n_quick: 400, n_thorough: 6000, ops: (12, 60), topics: 2, restart_pct: 0, reject_pct: 0,
-        peek_pct: 15, offset_pct: 0, multi_unit_pct: 3, marks_pct: 0, alo_pct: 30, mmap_pct: 40, both_backends: false, clock_back_pct: 0, fault_pct: 0, reclaim_pct: 0 };
+        peek_pct: 15, offset_pct: 0, multi_unit_pct: 3, marks_pct: 0, alo_pct: 30, mmap_pct: 40, both_backends: false, clock_back_pct: 0, fault_pct: 0, reclaim_pct: 0, crash_w_pct: 0, crash_r_pct: 0 };
     match name {
         "seq" => base,
         "peek" => Profile { name: "peek", peek_pct: 45, offset_pct: 35, ..base },
@@ -60,6 +62,8 @@ pub fn profile(name: &str) -> Profile {
         "backends" => Profile { name: "backends", restart_pct: 4, reject_pct: 6, peek_pct: 25, offset_pct: 20, multi_unit_pct: 5, both_backends: true, ..base },
         "faults" => Profile { name: "faults", fault_pct: 22, reject_pct: 6, restart_pct: 3, multi_unit_pct: 2, ..base },
         "reclaim" => Profile { name: "reclaim", reclaim_pct: 14, restart_pct: 3, ops: (50, 140), topics: 3, peek_pct: 25, offset_pct: 10, multi_unit_pct: 1, ..base },
+        "crashw" => Profile { name: "crashw", crash_w_pct: 18, restart_pct: 2, multi_unit_pct: 1, alo_pct: 0, ops: (10, 45), ..base },
+        "crashr" => Profile { name: "crashr", crash_r_pct: 22, restart_pct: 2, multi_unit_pct: 1, alo_pct: 40, peek_pct: 10, ops: (12, 50), ..base },
         "marks" => Profile { name: "marks", marks_pct: 45, restart_pct: 10, ops: (6, 30), ..base },
         _ => panic!("unknown profile {}", name),
     }
@@ -243,7 +247,12 @@ pub fn gen_program(r: &mut Rng, g: &Geo, p: &Profile, backend: &str, seed_tag: u
                 continue;
             }
             let faulty = r.chance(p.fault_pct);
-            let is_batch = r.chance(if faulty { 70 } else { 30 });
+            let crashy = !faulty && r.chance(p.crash_w_pct);
+            let is_batch = r.chance(if faulty || crashy { 70 } else { 30 });
+            if crashy {
+                if backend == "fd" && is_batch && r.chance(20) { lines.push("crash 7 0".into()); }
+                else { lines.push(format!("crash 0 {}", if is_batch { r.below(5) } else { 0 })); }
+            }
             if faulty {
                 // entry-write failure at position 0..=5 (a position beyond the batch never fires), or,
                 // on the io_uring path only, a failed submission
@@ -271,10 +280,20 @@ pub fn gen_program(r: &mut Rng, g: &Geo, p: &Profile, backend: &str, seed_tag: u
                 sim_append(g, st, len);
                 lines.push(format!("append {} {}", st.name, next_desc(len)));
             }
+            if crashy {
+                clock += 1 + r.below(3000);
+                lines.push(format!("clock {}", clock));
+                lines.push("open".into());
+                for tt in topics.iter() { lines.push(format!("count {}", tt.name)); }
+            }
         } else {
+            let crash_read = r.chance(p.crash_r_pct);
+            if crash_read {
+                lines.push(format!("crash {} {}", 2 + r.below(2), r.below(3)));
+            }
             let st = &mut topics[ti];
-            let cp = !r.chance(p.peek_pct);
-            match r.below(10) {
+            let cp = crash_read || !r.chance(p.peek_pct);
+            match if crash_read { r.below(9) } else { r.below(10) } {
                 0..=3 => {
                     lines.push(format!("next {} {}", st.name, cp as u8));
                     if cp && st.consumed < st.log.len() { st.consumed += 1; }
@@ -322,6 +341,11 @@ pub fn gen_program(r: &mut Rng, g: &Geo, p: &Profile, backend: &str, seed_tag: u
                     }
                 }
                 _ => lines.push(format!("count {}", st.name)),
+            }
+            if crash_read {
+                clock += 1 + r.below(3000);
+                lines.push(format!("clock {}", clock));
+                lines.push("open".into());
             }
         }
     }
@@ -394,6 +418,14 @@ pub fn run_program(lines: &[String], tag: &str) -> RunResult {
         match status.map(|s| s.code()) {
             Some(Some(77)) => {
                 start = done + 1;
+                if start > nops { break; }
+            }
+            Some(Some(78)) => {
+                // the armed crash point was reached inside the operation at line done+1: it has no output
+                use std::io::Write as _;
+                let mut f = std::fs::OpenOptions::new().create(true).append(true).open(&outf).unwrap();
+                writeln!(f, "crashed").unwrap();
+                start = done + 2;
                 if start > nops { break; }
             }
             Some(Some(0)) => break,
